@@ -92,8 +92,9 @@ class Constructor:
         try:
             logger.debug('Calling __init__')
             if '_yatiml_extra' in argspec.args:
+                # a key called self is an extra attribute like any other
                 attrs = self.__split_off_extra_attributes(
-                    mapping, argspec.args)
+                    mapping, [a for a in argspec.args if a != 'self'])
                 new_obj.__init__(**attrs)
 
             else:
@@ -223,18 +224,22 @@ class Constructor:
         logger.debug('Checking for extraneous attributes')
         logger.debug('Constructor arguments: {}, mapping: {}'.format(
             argspec.args, list(mapping.keys())))
+        # keys called self or _yatiml_extra are not parameters, but
+        # unknown or extra attributes
+        params = [
+                a for a in argspec.args if a not in ('self', '_yatiml_extra')]
         for key, value in mapping.items():
             if not isinstance(key, str):
                 raise RecognitionError(
                         '{}\nExpected a string'.format(node.start_mark))
-            if key not in argspec.args and '_yatiml_extra' not in argspec.args:
+            if key not in params and '_yatiml_extra' not in argspec.args:
                 key_node = [kn for kn, _ in node.value if kn.value == key][0]
                 msg = diagnose_extraneous_key(
                         key, list(mapping.keys()), self.class_)
                 raise RecognitionError(
                         '{}\n{}'.format(key_node.start_mark, msg))
 
-            if key in argspec.args and key in argspec.annotations:
+            if key in params and key in argspec.annotations:
                 if not self.__type_matches(value, argspec.annotations[key]):
                     value_node = [
                             vn for kn, vn in node.value if kn.value == key][0]
